@@ -31,7 +31,7 @@ IoChan == 1003
 
 States == {"WaitDemandActive", "WaitSync", "WaitCoop", "WaitGranted", "WaitFontMap", "Active"}
 Letters == {"DA", "SYNC", "COOP", "GRANTED", "CTLOTHER", "FONTMAP", "ERRINFO", "UNKDATA", "DEACT", "FPBMP", "FPOTHER",
-            "ULT", "OFFCHAN"}    \* session level: disconnect-provider ultimatum; a PDU on another channel than the I/O channel
+            "ULT", "OFFCHAN", "UNKCTL"}    \* session level: disconnect-provider ultimatum; a PDU on another channel than the I/O channel
 
 (***************************************************************************)
 (* Abstract server messages (what WireServer!DecServer returns).           *)
@@ -45,6 +45,7 @@ OffChannel(m) == "channel" \in DOMAIN m /\ m.channel # IoChan
 Letter(m) ==
   CASE m.kind = "SrvUltimatum"  -> "ULT"
     [] m.kind # "SrvUltimatum" /\ OffChannel(m) -> "OFFCHAN"
+    [] ~OffChannel(m) /\ m.kind = "UnknownControl" -> "UNKCTL"     \* a share control PDU of a type the client does not handle
     [] ~OffChannel(m) /\ m.kind = "DemandActive"  -> "DA"
     [] ~OffChannel(m) /\ m.kind = "Sync"          -> "SYNC"
     [] ~OffChannel(m) /\ m.kind = "Control"       -> (IF m.action = 4 THEN "COOP" ELSE IF m.action = 2 THEN "GRANTED" ELSE "CTLOTHER")
@@ -76,11 +77,12 @@ Finalise(u, s) == << ConfirmActive(u, s), Sync(u, s), Control(u, s, 4), Control(
 PTRFLAGS_MOVE == 2048
 PTRFLAGS_DOWN == 32768
 ButtonFlag(b) == CASE b = 1 -> 4096 [] b = 2 -> 8192 [] b = 3 -> 16384 [] OTHER -> PTRFLAGS_MOVE
-\* the property fixes "the flag combination that encodes the submitted button and press state";
-\* for a button-less event with down = TRUE both MOVE and MOVE|DOWN encode it, so both are allowed
+\* the property fixes "the flag combination that encodes the submitted button and press state": the button flag
+\* (MOVE for a button-less event) and DOWN exactly when the event says pressed - also for a button-less event,
+\* whose press state would otherwise be lost
 PtrFlagChoices(e) ==
   IF e.b \in {1, 2, 3} THEN { ButtonFlag(e.b) + (IF e.down THEN PTRFLAGS_DOWN ELSE 0) }
-  ELSE IF e.down THEN { PTRFLAGS_MOVE, PTRFLAGS_MOVE + PTRFLAGS_DOWN } ELSE { PTRFLAGS_MOVE }
+  ELSE IF e.down THEN { PTRFLAGS_MOVE + PTRFLAGS_DOWN } ELSE { PTRFLAGS_MOVE }
 KBDFLAGS_RELEASE == 32768
 
 WireEvents(e) ==      \* set of admissible wire encodings (without eventTime) of a submission
@@ -149,11 +151,14 @@ Srv(m) ==
 \* same train - on this class looking at every element in turn is exactly the sequential semantics of Srv, so the
 \* window must close on a deactivate-all WHEREVER it stands in the train.  Outside the class the implementation
 \* deviates from the sequential semantics (named deviations, not generated: a train received during the handshake
-\* is read up to its first PDU only; a demand-active that follows a deactivate-all in the same train is not answered).
-TrainLetters == {"DA", "SYNC", "COOP", "GRANTED", "CTLOTHER", "FONTMAP", "ERRINFO", "UNKDATA", "DEACT"}
+\* is read up to its first PDU only; a demand-active that follows a deactivate-all in the same train is not answered;
+\* a share control PDU of a type the client does not know ends the processing of the train with an error, so a
+\* deactivate-all standing BEHIND it in the same train is not seen - one standing before it is).
+TrainLetters == {"DA", "SYNC", "COOP", "GRANTED", "CTLOTHER", "FONTMAP", "ERRINFO", "UNKDATA", "DEACT", "UNKCTL"}
 TrainClass(ms) == /\ Len(ms) >= 2
                   /\ \A k \in 1..Len(ms) : Letter(ms[k]) \in TrainLetters
                   /\ \A j, k \in 1..Len(ms) : (j < k /\ Letter(ms[j]) = "DEACT") => Letter(ms[k]) # "DA"
+                  /\ \A j, k \in 1..Len(ms) : (j < k /\ Letter(ms[j]) = "UNKCTL") => Letter(ms[k]) # "DEACT"
 SrvTrain(ms) ==
   /\ act = "Active" /\ TrainClass(ms)
   /\ inres' = "none" /\ UNCHANGED <<userId, shareId>> /\ Quiet
@@ -186,7 +191,7 @@ ModelMsgs ==
   \cup { [kind |-> "Control", action |-> a] : a \in {1, 2, 3, 4} }
   \cup { [kind |-> "FastPath", updates |-> <<[t |-> "Bitmap"]>>, rects |-> rs] : rs \in RectSeqs }
   \cup { [kind |-> "FastPath", updates |-> <<[t |-> "Other", code |-> 5]>>, rects |-> <<>>] }
-  \cup { [kind |-> "SrvUltimatum"] }
+  \cup { [kind |-> "SrvUltimatum"], [kind |-> "UnknownControl", ptype |-> 26] }
   \cup { [kind |-> "Sync", channel |-> c] : c \in {1004, 1005} } \cup { [kind |-> "DemandActive", shareId |-> s, channel |-> 1004] : s \in ShareIds }
 
 ModelInputs ==
@@ -194,7 +199,7 @@ ModelInputs ==
   \cup { [t |-> "key", code |-> c, down |-> d] : c \in Coords, d \in BOOLEAN }
   \cup { [t |-> "bmp"] }
 
-ModelTrains == { <<a, b>> : a, b \in { m \in ModelMsgs : m.kind \in {"Sync", "ErrInfo", "DeactivateAll", "DemandActive"} /\ ~OffChannel(m) } }
+ModelTrains == { <<a, b>> : a, b \in { m \in ModelMsgs : m.kind \in {"Sync", "ErrInfo", "DeactivateAll", "DemandActive", "UnknownControl"} /\ ~OffChannel(m) } }
 Next == \/ \E m \in ModelMsgs : Srv(m)
         \/ \E ms \in ModelTrains : SrvTrain(ms)
         \/ \E e \in ModelInputs, len \in BOOLEAN : Input(e, len)
